@@ -41,7 +41,9 @@ Definition addrs_for_dial_wrong (keep : list Z -> Z -> bool) (es : list pent) : 
      4. unspecified IPs are dropped (dial-to-self, link-local and the gater do not occur in the harness)
      5. with ForceDirectDial: relayed addresses are dropped.
 
-   What is known about an address: its class, its ip:port group, whether the swarm has a
+   What is known about an address: its class, its ip:port group (0: no ip:port can be computed,
+   e.g. a relay named by DNS that stays unresolved because the circuit transport skips
+   resolution - such an address neither dominates nor is dominated), whether the swarm has a
    transport for it, whether its IP is unspecified, whether it is relayed. *)
 Record ainfo := mkAI { ai_cls : Z; ai_grp : Z; ai_tpt : bool; ai_unspec : bool; ai_proxy : bool }.
 
@@ -58,7 +60,8 @@ Section Pipeline.
 
   Definition dominated (l : list Z) (a : Z) : bool :=
     let pc := preferred_cls (ai_cls (info a)) in
-    negb (pc =? 0) && existsb (fun b => (ai_cls (info b) =? pc) && (ai_grp (info b) =? ai_grp (info a))) l.
+    negb (pc =? 0) && negb (ai_grp (info a) =? 0) &&
+    existsb (fun b => (ai_cls (info b) =? pc) && (ai_grp (info b) =? ai_grp (info a))) l.
 
   Definition known_undialables (fdir : bool) (u : list Z) : list Z * list Z :=
     let s1 := filter (fun a => ai_tpt (info a)) u in
